@@ -7,6 +7,7 @@
 
 mod common;
 mod g_escape;
+mod g_quote;
 mod g_token;
 
 use std::path::Path;
@@ -24,6 +25,7 @@ fn main() {
         let r: Result<Vec<(String, String)>, String> = match g.as_str() {
             "token" => g_token::generate(repo),
             "escape" => g_escape::generate(repo),
+            "quote" => g_quote::generate(repo),
             _ => Err(format!("unknown group {g}")),
         };
         match r {
